@@ -400,15 +400,19 @@ inductive OOp
   | write (bs : Bytes)    -- `os.write(p, n)` / `os << string` -> `sputn` -> `xsputn`
   | flush                 -- `os.flush()`                      -> `pubsync` -> `sync`
   | reattach              -- `os.set_stream(same stream)`
+  | setStream (j : Nat)   -- `os.set_stream(stream j)`: flushes to the OLD stream, then attaches stream `j`
   | ovEof                 -- `overflow(EOF)` called directly (never done by libstdc++'s `ostream`)
   | destroy               -- `~ostream()`                      -> `pubsync`
   | useek (p : Nat)       -- `Seek(p)` on the wrapped stream, behind the adaptor's back
   deriving Repr, DecidableEq
 
-/-- adaptor + the wrapped stream (a plain array with a cursor) -/
+/-- adaptor + the wrapped stream (a plain array with a cursor) + the streams the caller owns:
+`parked[k]` is stream `k`; the entry of the attached stream `idx` is stale while it is attached -/
 structure OSt where
   ob : OBuf
   sink : Arr
+  idx : Nat := 0
+  parked : List Arr := []
   deriving Repr, DecidableEq
 
 def sinkWrite (a : Arr) (bs : Bytes) : Arr := (Arr.step Flavor.plain a (.write bs)).2
@@ -418,6 +422,7 @@ def OBuf.apply (s : OBuf) : OOp → ORes
   | .write bs => s.xsputn bs
   | .flush => s.sync
   | .reattach => s.setStream
+  | .setStream _ => s.setStream
   | .ovEof => s.overflow eofInt
   | .destroy => s.sync
   | .useek _ => some (s, [])
@@ -426,10 +431,14 @@ def OSt.step (s : OSt) (op : OOp) : Option (OSt × List Bytes) :=
   match s.ob.apply op with
   | none => none
   | some (ob, calls) =>
-    some ({ ob := ob,
-            sink := match op with
-              | .useek p => (Arr.step Flavor.plain s.sink (.seek p)).2
-              | _ => calls.foldl sinkWrite s.sink }, calls)
+    match op with
+    | .useek p => some ({ s with ob := ob, sink := (Arr.step Flavor.plain s.sink (.seek p)).2 }, calls)
+    | .setStream j =>
+      -- the flush of `set_stream` goes to the stream attached so far; then stream `j` is attached
+      match (s.parked.set s.idx (calls.foldl sinkWrite s.sink))[j]? with
+      | none => some ({ s with ob := ob, sink := calls.foldl sinkWrite s.sink }, calls)   -- no such stream: stays attached
+      | some a => some ({ ob := ob, sink := a, idx := j, parked := s.parked.set s.idx (calls.foldl sinkWrite s.sink) }, calls)
+    | _ => some ({ s with ob := ob, sink := calls.foldl sinkWrite s.sink }, calls)
 
 /-- run a history of adaptor operations: all `Stream::Write` calls in order, `none` = `ub` -/
 def orun : OSt → List OOp → Option (OSt × List Bytes)
@@ -448,6 +457,15 @@ def inserted : List OOp → Bytes
   | .put c :: ops => c :: inserted ops
   | .write bs :: ops => bs ++ inserted ops
   | _ :: ops => inserted ops
+
+/-- the bytes inserted while stream `j` is the attached one (`idx` = the stream attached at the start;
+`n` = number of streams: `set_stream` to a stream that does not exist changes nothing) -/
+def insertedFor (n j : Nat) : Nat → List OOp → Bytes
+  | _, [] => []
+  | idx, .put c :: ops => (if idx = j then [c] else []) ++ insertedFor n j idx ops
+  | idx, .write bs :: ops => (if idx = j then bs else []) ++ insertedFor n j idx ops
+  | idx, .setStream k :: ops => insertedFor n j (if k < n then k else idx) ops
+  | idx, _ :: ops => insertedFor n j idx ops
 
 /-! ## istream::InBuf under the libstdc++ `streambuf` get protocol -/
 
@@ -588,5 +606,90 @@ def irun : ISt → List IOp → Option (ISt × List IOut)
       match irun s1 ops with
       | none => none
       | some (s2, os) => some (s2, o :: os)
+
+/-! ## dmlc::istream as a whole: `std::basic_istream` state bits on top of `InBuf`, `set_stream` -/
+
+/-- `InBuf::set_stream(stream)`: `stream_ = stream; setg(&buffer_[0], &buffer_[0], &buffer_[0])` -- whatever was
+buffered from the old stream is dropped -/
+def IBuf.setStream (b : IBuf) : IBuf := { b with gptr := 0, egptr := 0 }
+
+/-- `InBuf` + attached stream + the streams the caller owns (`parked[k]` is stream `k`; the entry of the
+attached stream `idx` is stale while it is attached) + `eofbit` / `failbit` of the `basic_ios` -/
+structure IOS where
+  st : ISt
+  idx : Nat
+  parked : List Arr
+  eofbit : Bool
+  failbit : Bool
+  deriving Repr, DecidableEq
+
+/-- operations on a `dmlc::istream` object -/
+inductive FOp
+  | get                      -- `is.get()`: sentry, `sbumpc`, state bits
+  | peek                     -- `is.peek()`
+  | read (n : Nat)           -- `is.read(p, n)`; `gcount()` bytes
+  | raw (op : IOp)           -- the same through `is.rdbuf()` (no sentry, no state bits); `useek p` of the attached stream
+  | clear                    -- `is.clear()`
+  | setStream (j : Nat)      -- `is.set_stream(stream j)`
+  | useek (j p : Nat)        -- `Seek(p)` on stream `j` (attached or not)
+  deriving Repr, DecidableEq
+
+/-- state bits a (good) extraction sets: `(eofbit, failbit)` (libstdc++ `basic_istream::get/peek/read`) -/
+def shortFlags : FOp → IOut → Bool × Bool
+  | .get, .char none => (true, true)
+  | .peek, .char none => (true, false)
+  | .read n, .block bs => if bs.length = n then (false, false) else (true, true)
+  | _, _ => (false, false)
+
+/-- what an extraction returns when the sentry finds the stream not `good()` -/
+def sentryFail : FOp → IOut
+  | .read _ => .block []
+  | _ => .char none
+
+/-- an extraction through the `std::istream` member functions: the sentry refuses (and sets `failbit`)
+unless the stream is `good()` -/
+def IOS.extract (s : IOS) (op : FOp) (iop : IOp) : Option (IOS × IOut) :=
+  if s.eofbit || s.failbit then some ({ s with failbit := true }, sentryFail op)
+  else (s.st.step iop).map fun r =>
+    ({ s with st := r.1, eofbit := (shortFlags op r.2).1, failbit := (shortFlags op r.2).2 }, r.2)
+
+def IOS.step (s : IOS) : FOp → Option (IOS × IOut)
+  | .get => s.extract .get .get
+  | .peek => s.extract .peek .peek
+  | .read n => s.extract (.read n) (.read n)
+  | .raw iop => (s.st.step iop).map fun r => ({ s with st := r.1 }, r.2)
+  | .clear => some ({ s with eofbit := false, failbit := false }, .unit)
+  | .useek j p =>
+    if j = s.idx then some ({ s with st := { s.st with src := (Arr.step Flavor.plain s.st.src (.seek p)).2 } }, .unit)
+    else match s.parked[j]? with
+      | none => some (s, .unit)
+      | some a => some ({ s with parked := s.parked.set j (Arr.step Flavor.plain a (.seek p)).2 }, .unit)
+  | .setStream j =>
+    -- buf_.set_stream(stream); this->rdbuf(&buf_)   [rdbuf(sb) = "set the buffer and clear()"]
+    match (s.parked.set s.idx s.st.src)[j]? with
+    | none => some (s, .unit)
+    | some a =>
+      some ({ st := { ib := s.st.ib.setStream, src := a }, idx := j, parked := s.parked.set s.idx s.st.src,
+              eofbit := if Gen.Streams.isSetStreamRdbuf then false else s.eofbit,
+              failbit := if Gen.Streams.isSetStreamRdbuf then false else s.failbit }, .unit)
+
+/-- what a stream provides from the moment it is attached: its bytes from its cursor on -/
+def IOS.attachProvides (s : IOS) : FOp → List Bytes
+  | .setStream j =>
+    match (s.parked.set s.idx s.st.src)[j]? with
+    | none => []
+    | some a => [a.data.drop a.cur]
+  | _ => []
+
+/-- run a history: outputs, and what each `set_stream` attached (in order) -/
+def frun : IOS → List FOp → Option (IOS × List IOut × List Bytes)
+  | s, [] => some (s, [], [])
+  | s, op :: ops =>
+    match s.step op with
+    | none => none
+    | some (s1, o) =>
+      match frun s1 ops with
+      | none => none
+      | some (s2, os, pr) => some (s2, o :: os, s.attachProvides op ++ pr)
 
 end DmlcModel.Streams
